@@ -1,7 +1,8 @@
 (** Executable model of label/label.go (Parse, New, String, Clean, Join, RelativeTo, Split, Parent, Dir),
     of Go's path.Clean / path.Join / path.IsAbs as used by dawn, of sourceFile.go's
     repoSourcePath / sourceLabel, of the two call sites that turn an accepted path into an OS location
-    (builtin_target's generates= loop and loadSourceFile) and of project.go's targetInfoPath.
+    (builtin_target's generates= loop and loadSourceFile), of project.go's targetInfoPath, and of the call sites
+    that turn a label spelled by the user into a key (builtin_target's deps= loop, get_target, LoadTarget).
     No proofs in this file. *)
 From Dawn Require Export Base.Bytes.
 
@@ -263,3 +264,46 @@ Definition target_info_path (l : label) : str * str :=
   let kind := match l_kind l with [] => target_kind | k => k end in
   let name := match l_name l with [] => build_dawn | n => n end in
   (kind ++ [115], path_escape (skipn 2 (l_package l) ++ c_slash :: name)).
+
+(** ** Where a label SPELLED BY THE USER becomes an identity (project_builtins.go builtin_target deps= loop,
+    builtin_get_target, builtin_run; project.go LoadTarget / Target)
+
+    deps=[s] in package [pkg]:  l := Parse(s); l = l.RelativeTo(pkg); dependencies = append(dependencies, l.String()).
+    The string stored in the dependency list is the key under which the runner asks for the target and under
+    which the dependency is persisted in the record of the dependent. *)
+Definition site_dep (pkg s : str) : option str :=
+  match parse s with
+  | None => None
+  | Some l => option_map to_string (relative_to l pkg)
+  end.
+
+Fixpoint str_mem (x : str) (l : list str) : bool :=
+  match l with
+  | [] => false
+  | y :: l' => str_eqb x y || str_mem x l'
+  end.
+
+(** The target table is a map from printed labels to targets; [defs] lists its keys.
+    get_target(s) / run(s) in package [pkg]: Parse, RelativeTo, proj.targets[l.String()].  The result is the key
+    that was hit (the implementation returns the target stored under it). *)
+Definition site_get (defs : list str) (pkg s : str) : option str :=
+  match site_dep pkg s with
+  | Some d => if str_mem d defs then Some d else None
+  | None => None
+  end.
+
+(** Project.LoadTarget(raw) (what the runner calls with a dependency string): Parse, proj.targets[l.String()]. *)
+Definition site_load_target (defs : list str) (s : str) : option str :=
+  match parse s with
+  | Some l => let d := to_string l in if str_mem d defs then Some d else None
+  | None => None
+  end.
+
+(** the table itself, for the statement "a lookup finds THE target of that label": keys are printed labels *)
+Fixpoint table_find {A} (tbl : list (str * A)) (k : str) : option A :=
+  match tbl with
+  | [] => None
+  | (k', v) :: t => if str_eqb k k' then Some v else table_find t k
+  end.
+
+Definition table_of (defs : list label) : list (str * label) := map (fun l => (to_string l, l)) defs.
